@@ -9,7 +9,9 @@ EXPLANATION = (
     "deactivate, and a restart event iff a time was given, at that time; (R4) module_restart sets active := true before the "
     "start-up stages and runs at_sim_start for every stage of 0..num_sim_start_stages; (R5) ModuleRef::reset rebuilds the async "
     "runtime before running the user's reset; (R6) the active flag is written only by the shutdown protocol (false), module_restart "
-    "(true) and the panic harness (false). (R7) the timer bookkeeping of ModuleRef::activate (bump, clearing a reached next_wakeup, installing the driver) does not depend on the module's active flag — a stale wake-up or the restart event must still clear the recorded wake-up time. (R8) the pending shutdown request is set only by the ModuleContext::shutdown* API and taken only by buf_process. Decides these necessary conditions only; not timelines of arrivals, deadlines and restarts.")
+    "(true) and the panic harness (false). (R7) the timer bookkeeping of ModuleRef::activate (bump, clearing a reached next_wakeup, installing the driver) does not depend on the module's active flag — a stale wake-up or the restart event must still clear the recorded wake-up time. (R8) the pending shutdown request is set only by the ModuleContext::shutdown* API and taken only by buf_process. "
+    '(R9, shared with C05.R3) a wake-up is recorded iff its event is scheduled, also in the event that requests the shutdown. '
+    "Decides these necessary conditions only; not timelines of arrivals, deadlines and restarts.")
 ASSUMPTIONS = ["dropping the tokio runtime cancels its tasks and their timers (Rt::shutdown replaces the runtime)"]
 
 EV = 'des::net::runtime::events::'
